@@ -28,6 +28,33 @@ Definition map_get_rect_tiles (m g : list Z) (has_gfx : bool) (x y width height 
                (range x width))
        (range y height).
 
+(* ---- get_rect_pixels ----
+   for i in range(0, 8): pixel_row[i].extend(sprite[i])  (the row buffers are updated in place) *)
+Definition grp_extend (pixel_row sprite : list (list Z)) : result (list (list Z)) :=
+  foldM (fun pr i => r <- py_get pr i ;; s <- py_get sprite i ;; py_set pr i (r ++ s))
+        (range map_grp_ext_lo (map_grp_ext_hi - map_grp_ext_lo)) pixel_row.
+
+(* one row of tiles: 8 row buffers, every tile appended to each of them; tile 0 is the shared
+   all-zero sprite (only read, so the aliasing of `[bytearray(8)] * 8` is invisible) *)
+Definition grp_tile_row (g : list Z) (tile_row : list Z) : result (list (list Z)) :=
+  pixel_row <- foldM (fun pr id =>
+                        sprite <- (if map_grp_empty id then Ok map_grp_empty_sprite
+                                   else get_sprite g (map_grp_sprite_id id) map_grp_sprite_w map_grp_sprite_h) ;;
+                        grp_extend pr sprite)
+                     tile_row map_grp_pixel_row_init ;;
+  mapM (py_get pixel_row) (range map_grp_out_lo (map_grp_out_hi - map_grp_out_lo)).
+
+Definition map_get_rect_pixels (m g : list Z) (has_gfx : bool) (x y width height : Z)
+  : result (list (list Z)) :=
+  _ <- assert_ (map_grp_assert_g (negb has_gfx)) ;;
+  _ <- assert_ (map_grp_assert_x x) ;;
+  _ <- assert_ (map_grp_assert_w width) ;;
+  _ <- assert_ (map_grp_assert_h height) ;;
+  _ <- assert_ (map_grp_assert_yh y height) ;;
+  tile_rect <- map_get_rect_tiles m g has_gfx x y width height ;;
+  rows <- mapM (grp_tile_row g) tile_rect ;;
+  Ok (concat rows).
+
 Definition map_set_rect_tiles (m g : list Z) (has_gfx : bool) (rect : list (list Z)) (x y : Z)
   : result (list Z * list Z) :=
   foldM (fun st yrow =>
